@@ -64,6 +64,10 @@ CHECKS = {
    text="Scripted raw-byte client <-> real httpproxy server and its non-CONNECT forwarder <-> scripted origin, in memory on a virtual clock: pipelined request sequences with header casing/repetition, Connection nominations, Upgrade, proxy credentials, Content-Length and chunked bodies with trailers, interim 1xx, bodiless and close-delimited responses, redirects with/without Location, host changes, later CONNECT, early closes, Basic-auth retries; an own strict HTTP/1.1 parser compares messages semantically minus hop-by-hop fields.",
    note="Four genuine deviations are open known findings (F19-F22); a request pipelined behind the client's own Connection: close is a documented don't-care.",
    tech="runtime monitoring: semantic message-equality oracle over captured origin/client byte streams (plain + race detector)"),
+ "C12": dict(cat="fault_enumeration",
+   text="Lifecycle schedules of the real UDP relays (NAT and session relay, recvmmsg and generic paths) on a virtual clock: idle eviction at natTimeout-/+eps with restart, Stop when idle / established / with bursts in flight / right after timeouts / while initialisation is held in name resolution / with a goroutine held at the re-arm or state-swap hook, failing initialisation (router reject, upstream refused); after Run returns the process is audited: goroutines and sockets back to baseline, listener port reusable, virtual time consumed by Stop < natTimeout/2.",
+   note="Multi-user SS2022 servers excluded (signal.Notify makes the fake clock unadvanceable); kernel fault injection (EMFILE, ICMP) not in this tier; leak audit by process-wide goroutine/socket counts.",
+   tech="runtime monitoring: lifecycle-phase enumeration with hook-directed schedules on the runtime's fake clock + leak/virtual-time audit"),
 }
 
 PENDING_DEFAULT = "check under construction in this session (design in DESIGN.md §4); not claimed until its monitor runs clean on the unchanged tree"
